@@ -47,7 +47,9 @@ def ftoken(x) -> str:
 
 
 GROUP_NAMES = ["a", "B", "left-side", "left_side", "a b", "L-R-x", "-", "x-", "-x", "Upper Case", "ungrouped", "g.1", "ä", "a--b", "group-1"]
-SUBJECT_NAMES = ["s1", "sub-01", "a b", "subject_name", "Ünï", "x\ty", 'q"uote', "s,1", " lead", "trail ", "-", "0", "1e5", "nan", "#c"]
+SUBJECT_NAMES = ["s1", "sub-01", "a b", "subject_name", "Ünï", "x\ty", 'q"uote', "s,1", " lead", "trail ", "-", "0", "1e5", "nan", "#c",
+                 # decomposed (non-NFC) spellings, as file systems hand them out, next to the composed one
+                 "Mu\u0308ller", "M\u00fcller", "cafe\u0301"]
 
 
 def rec_c18(rng, workdir: Path, meta=None) -> dict:
